@@ -8,7 +8,7 @@
    EXCEPTED with exactly e, its future raises e, it is closed, stepping has ended. *)
 From Coq Require Import List String Bool ZArith.
 From Plumpy Require Import Val Mon PortModel Model Run LifeSx LifeBook LifeFault LifeFault2 LifeFault3 LifeFault4 LifeFault5 LifeFault6.
-From Plumpy Require LifeEsc.
+From Plumpy Require LifeEsc LifeExc.
 Import ListNotations.
 Local Open Scope string_scope.
 
@@ -101,14 +101,30 @@ Theorem C03_never_half_transitioned :
 Proof. exact LifeEsc.never_half_transitioned. Qed.
 Print Assumptions C03_never_half_transitioned.
 
+(* ... and ends EXCEPTED WITH EXACTLY THAT EXCEPTION, in every such run: for a fault (h, k, e) in any of the life-cycle hooks run by
+   transitions (on_run, on_wait, on_finish, on_kill, on_except, on_running, on_waiting, on_finished, on_excepted, on_killed,
+   on_exit_running, on_exit_waiting, on_terminated, on_close), any occurrence index k, any program, listener scripts with
+   re-entrant control calls, callbacks and schedule: at every point between two environment events, if the fault has fired
+   (hook h has been called more than k times) the state is EXCEPTED e.  In particular the transition during which it fired was
+   completed to EXCEPTED before the enclosing operation returned, and nothing afterwards (further requests, listeners, the
+   remaining callbacks) changes that.  Proof: Life/LifeExc.v on top of LifeEsc. *)
+Theorem C03_fault_ends_excepted_every_run :
+  forall c es w h k e,
+    run c es = Some w -> ~ In ECancelFuture es ->
+    cf_fault c = Some (h, k, e) -> LifeExc.smhook h = true -> k < nat_assoc h (occ w) ->
+    st w = Some (SExcepted e).
+Proof. exact LifeExc.fault_ends_excepted. Qed.
+Print Assumptions C03_fault_ends_excepted_every_run.
+
 (* the hypotheses are met by runs in which the injected fault does fire: in an entry hook, in a termination hook after
    FINISHED had been entered, in the output hook inside a step with a kill pending, in a hook run by a listener's
    re-entrant kill; each ends EXCEPTED with exactly the injected exception, future raising it, closed, task returned *)
 Example C03_every_run_nonvacuous :
   let ns := PNs (mk_nattrs true None DNone None true true None) PNil in
   let boom := EUser "boom" in
-  let obs := fun w => (st w, pfut w, closed w, t0 w, existsb (fun ev => match ev with EvLoopError _ => true | _ => false end) (trace w)) in
-  let expected := Some (Some (SExcepted boom), PfExn boom, true, PcDone, false) in
+  let obs := fun w => (st w, pfut w, closed w, t0 w, existsb (fun ev => match ev with EvLoopError _ => true | _ => false end) (trace w),
+                       match cf_fault (cfg w) with Some (h, k, _) => Nat.ltb k (nat_assoc h (occ w)) | None => false end) in
+  let expected := Some (Some (SExcepted boom), PfExn boom, true, PcDone, false, true) in
   let c1 := mk_config [("run", mk_script [] (RValue (VInt 5%Z)))] [] [] (Some ("on_run", 0, boom)) ns in
   let c2 := mk_config [("run", mk_script [] (RValue (VInt 5%Z)))] [] [] (Some ("on_terminated", 0, boom)) ns in
   let c3 := mk_config [("run", mk_script [ACtl (CKill (Some "k")); AOut "x" (VInt 1%Z)] (RValue (VInt 5%Z)))] [] []
